@@ -1,5 +1,5 @@
 (* templates: common ta_io *)
-(* C01: input  incl <T A> <T B> ||| V v0..v7 R r0 r2 r4 r5 S <T sanA> <T sanB> n I <T A> <T B>
+(* C01: input  incl <T A> <T B> ||| V v0..v7 R r0 r2 r4 r5 Q q1 q3 q6 q7 S <T sanA> <T sanB> n I <T A> <T B>
    output OK | FAIL <gates> ; flags *)
 open Ex_c01
 open Common_c01
@@ -16,6 +16,7 @@ let () = each_line (fun l ->
     expect t "V";
     let vs = times 8 (fun () -> word t) in
     expect t "R"; let rs = times 4 (fun () -> word t) in
+    expect t "Q"; let qs = times 4 (fun () -> word t) in
     expect t "S"; let sa = read_ta t in let sb = read_ta t in let n = n_of_int (num t) in
     expect t "I"; let ia = read_ta t in let ib = read_ta t in
     let truth = incl_dec a b in
@@ -43,6 +44,7 @@ let () = each_line (fun l ->
     let drift = (if prepared_shape sa sb n then [] else ["sanitize_shape"]) @ (if up_ac a b = truth then [] else ["antichain_model"])
       @ (match down_model with Some v -> if v = truth then [] else ["down_model"] | None -> [])
       @ (match cache_model with Some v -> if v = truth then [] else ["down_cache_model"] | None -> [])
+      @ (if List.exists (fun v -> v = "Ecrash") qs then ["untrimmed_sim_crash"] else [])
       @ (match opt_model with Some v -> if v = truth then [] else ["down_opt_model"] | None -> []) in
     (if !fails = [] then "OK" else "FAIL " ^ String.concat "," (List.rev !fails))
     ^ (if drift = [] then "" else " DRIFT " ^ String.concat "," drift)
